@@ -6,7 +6,7 @@ import copy
 import signal
 
 from .. import drive, fingerprint, gen, observe, oracle
-from ..observe import (Event, Interpreter, Rec, SyncInterpreter, build_logic, create_machine, drain,
+from ..observe import (Event, Interpreter, MachineLogic, Rec, SyncInterpreter, build_logic, create_machine, drain,
                        run_virtual, xs)
 from .common import Result, Watchdog, h, plan_summary, rng_for
 
@@ -40,7 +40,7 @@ ASSUMPTIONS = ["after delays are 100 s or more in this workload: timers never fi
 NCHUNKS = 16
 LIBERR = xs.XStateMachineError
 DISAGREE = []          # (source, spelling, reference answer, library's static answer)
-REWRITES = ("t-string", "t-unlist", "always-as-empty-event", "cond", "act-unlist", "act-object",
+REWRITES = ("t-string", "t-unlist", "always-as-empty-event", "always-split-over-both-spellings", "cond", "act-unlist", "act-object",
             "delay-int", "initial-omitted", "target-respelled", "invoke-list", "entry-unlist")
 
 
@@ -52,7 +52,7 @@ def chunks(tier, seed):
 def _profile(dup):
     return gen.profile("full", p_dup_key=0.5 if dup else 0.0, p_after=0.1, p_invoke=0.2,
                        p_history=0.3, p_hist_target=0.25, p_custom_id=0.3, max_states=18,
-                       p_parallel=0.3, p_guard=0.35, min_fan=1)
+                       p_parallel=0.3, p_guard=0.35, min_fan=1, max_always=3, p_always=0.3)
 
 
 # ---------------------------------------------------------------------------
@@ -171,7 +171,17 @@ def rewrite(plan, case, rng, base_machine):
             tlist(sd["on"], ev, node)
         if "always" in sd:
             tlist(sd, "always", node)
-            if rng.random() < 0.5 and "" not in (sd.get("on") or {}):
+            r_ = rng.random()
+            if r_ < 0.2 and isinstance(sd["always"], list) and len(sd["always"]) >= 2 \
+                    and "" not in (sd.get("on") or {}):
+                # both spellings on ONE state: the candidates under on[""] come first, then `always`
+                cut = rng.randint(1, len(sd["always"]) - 1)
+                sd.setdefault("on", {})[""] = sd["always"][:cut]
+                sd["always"] = sd["always"][cut:]
+                if len(sd["always"]) == 1 and rng.random() < 0.5:
+                    sd["always"] = sd["always"][0]
+                hit("always-split-over-both-spellings")
+            elif r_ < 0.6 and "" not in (sd.get("on") or {}):
                 sd.setdefault("on", {})[""] = sd.pop("always")
                 hit("always-as-empty-event")
         if "onDone" in sd:
@@ -776,6 +786,107 @@ def dotted_key_collisions(res, spec, idx, case, plan, names):
             res.violation("C18:ambiguous-dotted-key-accepted/%s" % mode, what, witness, case={"idx": idx})
 
 
+def missing_implementations(res, spec, idx):
+    """A name the config uses and the logic does not implement is a config the library cannot
+    interpret: create_machine(), start() or the first use reports it with a library error - it is
+    never decided either way (a guard), skipped (an action) or ignored (a service)."""
+    import logging
+    from ..observe import LogCapture
+    rng = rng_for(spec["seed"], ID, spec["chunk"], idx, "missing")
+    kind = ("guard", "guard-in-composite", "action", "service")[idx % 4]
+    fired = []
+
+    def mk(n):
+        return lambda i, c, e, a, _n=n: fired.append(_n)
+    g = "noSuchGuard"
+    if kind == "guard-in-composite":
+        shape = rng.choice(["and", "or", "not", "not-not", "and-params", "or-nested"])
+        g = {"and": {"type": "and", "children": ["gT", "noSuchGuard"]},
+             "or": {"type": "or", "children": ["gF", "noSuchGuard"]},
+             "not": {"type": "not", "children": ["noSuchGuard"]},
+             "not-not": {"type": "not", "children": [{"type": "not", "children": ["noSuchGuard"]}]},
+             "and-params": {"type": "and", "params": {"guards": ["gT", {"type": "noSuchGuard"}]}},
+             "or-nested": {"type": "or", "children": ["gF", {"type": "and", "children": ["gT", "noSuchGuard"]}]},
+             }[shape]
+    else:
+        shape = "-"
+    a = {"on": {"E": [{"target": "b", "actions": ["taken"]}, {"target": "c", "actions": ["fallback"]}]}}
+    if kind.startswith("guard"):
+        a["on"]["E"][0][rng.choice(["guard", "cond"])] = g
+    elif kind == "action":
+        site = rng.choice(["entry-of-target", "transition", "exit-of-source"])
+        shape = site
+        if site == "transition":
+            a["on"]["E"][0]["actions"] = ["noSuchAction", "taken"]
+        elif site == "exit-of-source":
+            a["exit"] = ["noSuchAction"]
+    else:
+        shape = rng.choice(["invoke", "spawn"])
+    b = {"entry": ["in_b"]}
+    if kind == "action" and shape == "entry-of-target":
+        b["entry"] = ["noSuchAction", "in_b"]
+    if kind == "service":
+        if shape == "invoke":
+            b["invoke"] = {"src": "noSuchService", "onDone": "c"}
+        else:
+            b["entry"] = [{"type": "xstate.spawnChild", "params": {"src": "noSuchService", "id": "k"}}, "in_b"]
+    cfg = {"id": "m", "initial": "a", "states": {"a": a, "b": b, "c": {}}}
+    for engine in ("sync", "async"):
+        del fired[:]
+        seen = {"lib": None, "raw": None, "errors": 0, "status": None}
+        logic = MachineLogic(actions={n: mk(n) for n in ("taken", "fallback", "in_b")},
+                             guards={"gT": lambda c, e: True, "gF": lambda c, e: False})
+        with LogCapture(logging.ERROR) as cap:
+            try:
+                machine = create_machine(copy.deepcopy(cfg), logic=logic)
+                if engine == "sync":
+                    it = SyncInterpreter(machine).start()
+                    try:
+                        it.send("E")
+                    finally:
+                        seen["status"] = it.status
+                        it.stop()
+                else:
+                    async def body():
+                        it2 = Interpreter(machine)
+                        await it2.start()
+                        try:
+                            await it2.send("E")
+                            await drain(it2, max_yields=300, settle=2)
+                        finally:
+                            seen["status"] = it2.status
+                            await it2.stop()
+                    run_virtual(body)
+            except LIBERR as e:
+                seen["lib"] = e
+            except Exception as e:  # noqa: BLE001
+                seen["raw"] = e
+            seen["errors"] = cap.count(logging.ERROR)
+        res.evaluations += 1
+        res.count("missing-implementation.runs.%s.%s" % (kind, engine))
+        res.hashes.add(h(["missing", kind, shape, engine]))
+        witness = {"kind": kind, "shape": shape, "engine": engine, "config": cfg, "fired": list(fired),
+                   "library_error": repr(seen["lib"]), "status": seen["status"], "error_records": seen["errors"]}
+        if seen["raw"] is not None:
+            res.violation("C18:raw-%s/missing-%s" % (type(seen["raw"]).__name__, kind), repr(seen["raw"])[:160],
+                          witness, case={"idx": idx, "missing": True})
+            continue
+        # (a built-in action that cannot do its work - spawnChild of an unknown service - is contained
+        #  like any failing action: the library error is logged at ERROR level, the rest of the action
+        #  list is skipped; that is loud, not silent)
+        reported = seen["lib"] is not None or seen["status"] == "error" or seen["errors"] > 0
+        decided = ("taken" in fired or "fallback" in fired) if kind.startswith("guard") else (
+            "in_b" in fired if (kind == "service" or shape == "entry-of-target") else "taken" in fired)
+        if not reported:
+            res.violation("C18:missing-%s-not-reported/%s" % (kind, engine),
+                          "%s (%s) has no implementation: no library error, status %s, actions run %s" % (
+                              kind, shape, seen["status"], fired), witness, case={"idx": idx, "missing": True})
+        elif kind.startswith("guard") and decided:
+            res.violation("C18:missing-guard-decided-either-way/%s" % engine,
+                          "guard %s: candidates ran %s although the guard could not be evaluated" % (shape, fired),
+                          witness, case={"idx": idx, "missing": True})
+
+
 def _jsonable(v):
     if isinstance(v, dict):
         return {str(k): _jsonable(x) for k, x in v.items()}
@@ -802,6 +913,8 @@ def run_chunk(spec):
         if out is not None and (j < ncorr or only):
             wd.arm("corrupt idx=%d" % idx)
             corruption(res, spec, idx, tier, *out, wd=wd)
+        if j < 24 or only:
+            missing_implementations(res, spec, idx)
         if out is not None:
             duplicate_ids(res, spec, idx, *out)
             dotted_key_collisions(res, spec, idx, *out)
@@ -816,7 +929,9 @@ def quota(counters, tier):
             "corruption.runs.sync", "corruption.runs.async",
             "corruption.rejected-at-create", "corruption.accepted", "duplicate-id.configs.siblings",
             "duplicate-id.configs.different-branches", "duplicate-id.configs.ancestor-and-descendant",
-            "duplicate-id.rejected", "dotted-keys.existing-path.depth2", "dotted-keys.existing-path.depth3",
+            "duplicate-id.rejected", "missing-implementation.runs.guard-in-composite.sync",
+            "missing-implementation.runs.guard-in-composite.async", "missing-implementation.runs.action.sync",
+            "missing-implementation.runs.service.async", "dotted-keys.existing-path.depth2", "dotted-keys.existing-path.depth3",
             "dotted-keys.two-groupings.prefix-dotted", "dotted-keys.two-groupings.prefix-plain",
             "dotted-keys.single-grouping", "dotted-keys.rejected", "dotted-keys.accepted"]
     need += ["rewrites." + k for k in REWRITES]
